@@ -1,0 +1,22 @@
+//! Verification hooks (feature `verif-hooks`, off by default).
+//!
+//! Named pause points: a check can register a handler that is called, on the thread that
+//! reaches the point, with the point's name. Without a handler a pause point does nothing.
+
+use std::sync::{Arc, RwLock};
+
+type Handler = Arc<dyn Fn(&str) + Send + Sync>;
+
+static HANDLER: RwLock<Option<Handler>> = RwLock::new(None);
+
+/// Installs (or with `None` removes) the pause handler.
+pub fn set_pause_handler(handler: Option<Handler>) {
+    *HANDLER.write().unwrap_or_else(|e| e.into_inner()) = handler;
+}
+
+pub fn pause(point: &str) {
+    let handler = HANDLER.read().unwrap_or_else(|e| e.into_inner()).clone();
+    if let Some(handler) = handler {
+        handler(point);
+    }
+}
